@@ -443,6 +443,12 @@ pub fn check_case(c: &Case, st: &mut Stats) -> Result<(), Failure> {
             }
         }
         Input::Composite { kind, field } => {
+            // the field is spliced into a document as text: it must be exactly one JSON value, otherwise the splice builds a
+            // different document (e.g. `1, "x": 0` adds a key) and says nothing about the embedded quantity
+            if serde_json::from_str::<serde_json::Value>(field).is_err() {
+                st.skip("composite_field_is_not_a_single_json_value");
+                return Ok(());
+            }
             let reference = json_reference(field);
             let r = catch(|| composite_route(ty, *kind, field))
                 .map_err(|p| Failure::new(format!("panic:composite{}:{}", kind, tn), "no panic", format!("{} on field {}", p, field)))?;
